@@ -663,6 +663,8 @@ class Interp:
                 else:
                     raise Unanalysable("deref of non-pointer %r" % (v,))
             elif isinstance(e, dict) and "f" in e:
+                if e.get("of", "").endswith(("MaybeUninit", "ManuallyDrop", "MaybeDangling")):
+                    continue        # transparent wrappers
                 v = cur.get() if isinstance(cur, Ptr) else None
                 if isinstance(v, Agg):
                     i = e["i"]
@@ -671,6 +673,8 @@ class Interp:
                     cur = Ptr(v.items, i)
                 elif isinstance(v, Opaque):
                     cur = Ptr([self.opaque_field(v, e)], 0)
+                elif isinstance(v, (Ptr, SlicePtr)):
+                    pass    # Box / Unique / NonNull wrappers around a pointer are transparent
                 else:
                     raise Unanalysable("field %s of non-aggregate %r" % (e["f"], v))
             elif isinstance(e, dict) and "idx" in e:
@@ -773,7 +777,13 @@ class Interp:
             b = blocks[bi]
             for s in b["s"]:
                 self.steps += 1
-                self.assign(fn, fr, s)
+                try:
+                    self.assign(fn, fr, s)
+                except (Unanalysable, PanicReached) as e:
+                    if not getattr(e, "located", False):
+                        e.args = ("%s: %s" % (fn.loc(s["ln"]), e.args[0] if e.args else ""),)
+                        e.located = True
+                    raise
             if self.steps > self.step_limit:
                 raise Unanalysable("step limit exceeded in %s" % fn.id)
             t = b["t"]
@@ -834,7 +844,8 @@ class Interp:
                     if bool(c) != t["exp"]:
                         raise PanicReached("%s: assertion %s fails" % (fn.loc(t["ln"]), t["msg"]))
                 elif isinstance(c, Term):
-                    self.effects.append(("may_panic", t["msg"], fn.loc(t["ln"])))
+                    if t["msg"] not in ("misaligned", "nullptr"):
+                        self.effects.append(("may_panic", t["msg"], fn.loc(t["ln"])))
                 bi = t["to"]
             elif k == "drop":
                 bi = t["to"]
@@ -936,6 +947,8 @@ class Interp:
                     return SlicePtr(v.items, 0, len(v.items))
             return x
         if ck in ("Transmute", "PtrToPtr"):
+            if isinstance(x, (Ptr, SlicePtr)) and ty in UINT_BITS:
+                return Term("addr")     # debug-build alignment / null checks on raw pointers
             return x
         raise Unanalysable("cast kind %s" % ck)
 
